@@ -495,6 +495,7 @@ func CheckC12(e *Env) int {
 	progs = append(progs, c12CaseTwins()...)
 	// both forms of one struct provider in one injector, one holder writing through the pointer
 	progs = append(progs, bothFormsFamily()...)
+	progs = append(progs, caseTwinFieldsFamily()...)
 	results := RunPool(e, progs, PoolOpts{Execute: true, Name: "c12", BatchSize: 4})
 	for _, pr := range results {
 		EvalAccepted(pr)
